@@ -44,7 +44,7 @@ def alphabet(tier):
     for k in ("con", "sto", "st"):
         for gi in (0, 2):
             ops.append(("A", k, gi))
-    ops += [("SP", 0), ("SP", 1), ("SPLIT", 0), ("SPLIT", 1), ("OPT",), ("JSON",), ("FLAT", 0), ("FLAT", 1), ("CS", 0), ("CS", 1), ("ARR", 0), ("ARR", 2), ("FIX", 0), ("FIX", 1), ("FIX", 3), ("FIXA", 0), ("FIXA", 1), ("FIXA", 3), ("PAR", "tr.efficiency", 0.7), ("PAR", "xtr.efficiency", 0.8), ("SPLITDF", 0), ("SPLITDF", 2), ("AP", "con"), ("AP", "sto")]
+    ops += [("SP", 0), ("SP", 1), ("SPLIT", 0), ("SPLIT", 1), ("OPT",), ("JSON",), ("FLAT", 0), ("FLAT", 1), ("ST2", 0), ("ST2", 1), ("FLAT2", 0), ("FLAT2", 1), ("CS", 0), ("CS", 1), ("ARR", 0), ("ARR", 2), ("FIX", 0), ("FIX", 1), ("FIX", 3), ("FIXA", 0), ("FIXA", 1), ("FIXA", 3), ("PAR", "tr.efficiency", 0.7), ("PAR", "xtr.efficiency", 0.8), ("SPLITDF", 0), ("SPLITDF", 2), ("AP", "con"), ("AP", "sto")]
     if tier == "thorough":
         ops += [("SLP", 0), ("SLP", 1)]
     return ops
@@ -95,6 +95,12 @@ class World:
         self.arr4 = SimpleContract(name="arr4", nodes=n1, price="q", min_cap=-self.cap4, max_cap=self.cap4)
         self.pf_arr = Portfolio([SimpleContract(name="am", nodes=n1, price="p", min_cap=-5.0, max_cap=5.0), self.arr4])
         self.flat = Portfolio([self.fm, self.isto, self.itr])
+        # a second structured asset, stand-alone, with an END only (no start), over inner assets reaching beyond it; they are also used flat
+        nk = Node("nk")
+        self.ksto = Storage("ksto", nodes=nk, size=6.0, cap_in=1.0, cap_out=1.0, start_level=0.0, end_level=0.0, end=T("2021-01-03"))
+        self.ktr = Transport(name="ktr", nodes=[nk, n1], min_cap=-2.0, max_cap=2.0)
+        self.st2 = StructuredAsset(name="st2", nodes=[n1], portfolio=Portfolio([self.ksto, self.ktr]), end=T("2021-01-01 18:00"))
+        self.flat2 = Portfolio([SimpleContract(name="fm2", nodes=n1, price="p", min_cap=-5.0, max_cap=5.0), self.ksto, self.ktr])
         # a user-supplied dictionary fixing the first steps to given values (date + full-length array), reused between calls
         self.fw = dict(I=T("2021-01-02 06:00"), x=np.round(np.linspace(-1.0, 1.0, 16), 3))
         # ... and one giving the window as an index array, with values for more variables than any of the problems has
@@ -126,7 +132,7 @@ class World:
 
     def objects(self):
         return dict(con=self.con, sto=self.sto, tr=self.tr, mk2=self.mk2, isto=self.isto, itr=self.itr, st=self.st, pf=self.pf,
-                    fm=self.fm, flat=self.flat, capd=self.capd, taked=self.taked, P=self.P, ob=self.ob, late=self.late, pl=self.pl, plf=self.plf, gas=self.gas, cap_arr=self.cap_arr, cap4=self.cap4, arr4=self.arr4, pf_arr=self.pf_arr, xtr=self.xtr, xtake=self.xtake, orders=self.orders, orders_df=self.orders_df, fw=self.fw, fwa=self.fwa, pf_fix=self.pf_fix, Pdf4=self.Pdf4,
+                    fm=self.fm, flat=self.flat, ksto=self.ksto, ktr=self.ktr, st2=self.st2, flat2=self.flat2, capd=self.capd, taked=self.taked, P=self.P, ob=self.ob, late=self.late, pl=self.pl, plf=self.plf, gas=self.gas, cap_arr=self.cap_arr, cap4=self.cap4, arr4=self.arr4, pf_arr=self.pf_arr, xtr=self.xtr, xtake=self.xtake, orders=self.orders, orders_df=self.orders_df, fw=self.fw, fwa=self.fwa, pf_fix=self.pf_fix, Pdf4=self.Pdf4,
                     ctx=(self.cur, self.last, None if self.last_op is None else "op", sorted(self.acur.items())))
 
     def key(self):
@@ -228,6 +234,14 @@ class World:
         if kind == "FLAT":
             _, gi = op
             prob = self.flat.setup_optim_problem(self.P[0][gi], self.grids[gi])
+            return ("problem", H.problem_hash(prob))
+        if kind == "ST2":
+            _, gi = op
+            prob = self.st2.setup_optim_problem(self.P[0][gi], self.grids[gi])
+            return ("problem", H.problem_hash(prob))
+        if kind == "FLAT2":
+            _, gi = op
+            prob = self.flat2.setup_optim_problem(self.P[0][gi], self.grids[gi])
             return ("problem", H.problem_hash(prob))
         if kind == "SLP":
             _, gi = op
